@@ -202,7 +202,8 @@ fn ladder_cfg(rng: &mut Rng, i: u64, thorough: bool) -> BuildCfg {
         let dest = if dest.len() < 1000 && rng.chance(1, 6) { respell_with_double_separator(&dest, rng) } else { dest };
         cfg.files.push(FileCfg {
             dest,
-            content_kind: if rng.bool() { "noise".into() } else { "text".into() },
+            // incompressible, text-like, or a single repeated byte (extreme compression ratios)
+            content_kind: ["noise", "text", "zero", "text"][rng.usize(4)].into(),
             size,
             content_seed: rng.next(),
             mode,
